@@ -47,8 +47,19 @@ def session(rng, cuts):
         will = None
         if wk:
             will = (wk, rng.choice([b"will/", b"will/x/", b"will/+/", b"will"]), b"bye%d" % v, rng.randrange(3) == 0)
+        odd = rng.randrange(6)
+        if odd == 0:
+            # a will addressed to the broker itself (its request channels carry no key): never published, and it must
+            # not act as a request of the dying connection either
+            will = ("emitter", rng.choice([b"presence/", b"link/"]),
+                    rng.choice([b'{"key":"@KEY:KA@","channel":"a/","status":false,"changes":true}',
+                                b'{"name":"zz","key":"@KEY:KA@","channel":"a/b/","subscribe":true}']), False)
+        elif odd == 1:
+            will = ("-", b"a", b"alias%d" % v, False)      # the will topic is the name of a shortcut, no key: never published
         s.conn(name, user=rng.choice([b"", b"vic"]), will=will)
         held = []
+        if odd == 1:
+            s.link(name, b"a", "KA", b"a/b/", rng.randrange(2) == 1)
         if rng.randrange(5) == 0:
             # a chain of filters whose ssids fold to one XOR value (one bucket of the per-connection counters),
             # partly removed (middle, head or tail first) before the connection ends: nothing may stay behind
